@@ -327,6 +327,18 @@ func writeDigests(root, path string) {
 				_, rt, _ := recvOf(fd)
 				name = rt + "." + name
 			}
+			// local variables, parameters and receivers are renamed v1, v2, ... in order of first appearance, so that a
+			// mere renaming does not change the digest
+			names := map[*ast.Object]string{}
+			ast.Inspect(fd, func(x ast.Node) bool {
+				if id, ok := x.(*ast.Ident); ok && id.Obj != nil && id.Obj.Kind == ast.Var && id.Obj.Pos() >= fd.Pos() && id.Obj.Pos() <= fd.End() {
+					if _, seen := names[id.Obj]; !seen {
+						names[id.Obj] = fmt.Sprintf("v%d", len(names)+1)
+					}
+					id.Name = names[id.Obj]
+				}
+				return true
+			})
 			var b bytes.Buffer
 			printer.Fprint(&b, token.NewFileSet(), fd)
 			out[n+":"+name] = fmt.Sprintf("%x", sha256.Sum256(b.Bytes()))
